@@ -319,6 +319,28 @@ Proof.
     + exists C. split; [exact HC|]. intros _. exact HR.
 Qed.
 
+(* the store after the whole plan, from any start store with empty key and child tables *)
+Lemma written_from_char : forall v ni rh st0,
+  n_keys st0 = [] -> n_children st0 = [] ->
+  NoDup (map fst (link_keys ni)) -> (length (link_keys ni) <= N.to_nat (n_key_size st0))%nat ->
+  exists T C,
+    fold_left apply_wop (write_plan v ni rh) st0 =
+    {| n_params := Some (params_of ni); n_sec := Some (sec_of v ni rh);
+       n_nwk_fc := if 4 <? v then nwk_key_fc ni else n_nwk_fc st0;
+       n_aps_fc := if 4 <? v then tclk_fc ni else n_aps_fc st0;
+       n_keys := T; n_key_size := n_key_size st0; n_children := C |}
+    /\ Rep T (link_keys ni) /\ (9 <= v -> Rep C (known_children ni)).
+Proof.
+  intros v ni rh st0 Hk0 Hc0 Hnd Hlen.
+  rewrite plan_split, !fold_left_app, (sec_stage v ni st0 _ Hk0 Hc0).
+  match goal with |- context [fold_left apply_wop (plan_keys v ni) ?st] =>
+    destruct (keys_stage v ni st eq_refl Hnd Hlen) as [T [HT HRT]] end.
+  rewrite HT.
+  match goal with |- context [fold_left apply_wop (plan_children v ni) ?st] =>
+    destruct (children_stage v ni st eq_refl) as [C [HC HRC]] end.
+  rewrite HC. exists T, C. split; [reflexivity|]. split; assumption.
+Qed.
+
 Lemma written_char : forall v ks ni rh,
   NoDup (map fst (link_keys ni)) -> (length (link_keys ni) <= N.to_nat ks)%nat ->
   exists T C,
@@ -328,18 +350,30 @@ Lemma written_char : forall v ks ni rh,
        n_keys := T; n_key_size := ks; n_children := C |}
     /\ Rep T (link_keys ni) /\ (9 <= v -> Rep C (known_children ni)).
 Proof.
-  intros v ks ni rh Hnd Hlen. unfold written. rewrite plan_split, !fold_left_app, sec_stage.
-  match goal with |- context [fold_left apply_wop (plan_keys v ni) ?st] =>
-    destruct (keys_stage v ni st eq_refl Hnd Hlen) as [T [HT HRT]] end.
-  rewrite HT.
-  match goal with |- context [fold_left apply_wop (plan_children v ni) ?st] =>
-    destruct (children_stage v ni st eq_refl) as [C [HC HRC]] end.
-  rewrite HC. exists T, C. split; [reflexivity|]. split; assumption.
+  intros v ks ni rh Hnd Hlen. unfold written.
+  exact (written_from_char v ni rh (ncp_blank ks) eq_refl eq_refl Hnd Hlen).
+Qed.
+
+Lemma written_after_char : forall v ks pn pa ni rh,
+  NoDup (map fst (link_keys ni)) -> (length (link_keys ni) <= N.to_nat ks)%nat ->
+  exists T C,
+    written_after v ks pn pa ni rh =
+    {| n_params := Some (params_of ni); n_sec := Some (sec_of v ni rh);
+       n_nwk_fc := if 4 <? v then nwk_key_fc ni else if 13 <=? v then 0 else pn;
+       n_aps_fc := if 4 <? v then tclk_fc ni else if 13 <=? v then 0 else pa;
+       n_keys := T; n_key_size := ks; n_children := C |}
+    /\ Rep T (link_keys ni) /\ (9 <= v -> Rep C (known_children ni)).
+Proof.
+  intros v ks pn pa ni rh Hnd Hlen. unfold written_after.
+  exact (written_from_char v ni rh (ncp_after_reset v ks pn pa) eq_refl eq_refl Hnd Hlen).
 Qed.
 
 (* ---- the round trip --------------------------------------------------------------------------------- *)
-Lemma roundtrip : forall v key_size ni rh, 4 <= v -> v <= 14 -> admissible v key_size ni ->
-  exists r, read_back v (written v key_size ni rh) = Some r /\
+(* from any start store with empty key and child tables; [roundtrip] (blank adapter) and
+   [roundtrip_after] (adapter that held another network before) are instances *)
+Lemma roundtrip_from : forall v ni rh st0, 4 <= v -> v <= 14 ->
+  n_keys st0 = [] -> n_children st0 = [] -> admissible v (n_key_size st0) ni ->
+  exists r, read_back v (fold_left apply_wop (write_plan v ni rh) st0) = Some r /\
     pan_id r = pan_id ni /\ ext_pan_id r = ext_pan_id ni /\ channel r = channel ni /\
     channel_mask r = channel_mask ni /\ update_id r = update_id ni /\
     nwk_key r = nwk_key ni /\ nwk_key_seq r = nwk_key_seq ni /\
@@ -350,8 +384,9 @@ Lemma roundtrip : forall v key_size ni rh, 4 <= v -> v <= 14 -> admissible v key
     (v = 4 -> hashed_tclk r = None) /\
     (9 <= v -> children r = map (fun c => (fst c, Some (snd c))) (known_children ni)).
 Proof.
-  intros v ks ni rh Hv4 Hv14 [Hnd [Hlen [Hch Htc]]].
-  destruct (written_char v ks ni rh Hnd Hlen) as [T [C [Hw [HT HC]]]].
+  intros v ni rh st0 Hv4 Hv14 Hk0 Hc0 [Hnd [Hlen [Hch Htc]]].
+  destruct (written_from_char v ni rh st0 Hk0 Hc0 Hnd Hlen) as [T [C [Hw [HT HC]]]].
+  set (ks := n_key_size st0) in *.
   rewrite Hw. unfold read_back. cbn [n_params n_sec]. eexists. split; [reflexivity|].
   cbn [pan_id ext_pan_id channel channel_mask update_id manager_id nwk_key nwk_key_seq nwk_key_fc
        tclk tclk_fc tc_address hashed_tclk link_keys children
@@ -371,6 +406,68 @@ Proof.
   intro H.
   assert (Hch' : (length (known_children ni) <= N.to_nat 256)%nat) by lia.
   rewrite (table_read _ C (known_children ni) 256 (HC H) Hch') by lia. reflexivity.
+Qed.
+
+Lemma roundtrip : forall v key_size ni rh, 4 <= v -> v <= 14 -> admissible v key_size ni ->
+  exists r, read_back v (written v key_size ni rh) = Some r /\
+    pan_id r = pan_id ni /\ ext_pan_id r = ext_pan_id ni /\ channel r = channel ni /\
+    channel_mask r = channel_mask ni /\ update_id r = update_id ni /\
+    nwk_key r = nwk_key ni /\ nwk_key_seq r = nwk_key_seq ni /\
+    tclk r = tclk ni /\
+    link_keys r = link_keys ni /\
+    (4 < v -> nwk_key_fc r = nwk_key_fc ni /\
+              hashed_tclk r = Some (match hashed_tclk ni with Some h => h | None => rh end)) /\
+    (v = 4 -> hashed_tclk r = None) /\
+    (9 <= v -> children r = map (fun c => (fst c, Some (snd c))) (known_children ni)).
+Proof.
+  intros v ks ni rh Hv4 Hv14 Hadm. unfold written.
+  exact (roundtrip_from v ni rh (ncp_blank ks) Hv4 Hv14 eq_refl eq_refl Hadm).
+Qed.
+
+(* the same on an adapter that held another network before, whatever counters it kept *)
+Lemma roundtrip_after : forall v key_size pn pa ni rh, 4 <= v -> v <= 14 -> admissible v key_size ni ->
+  exists r, read_back v (written_after v key_size pn pa ni rh) = Some r /\
+    pan_id r = pan_id ni /\ ext_pan_id r = ext_pan_id ni /\ channel r = channel ni /\
+    channel_mask r = channel_mask ni /\ update_id r = update_id ni /\
+    nwk_key r = nwk_key ni /\ nwk_key_seq r = nwk_key_seq ni /\
+    tclk r = tclk ni /\
+    link_keys r = link_keys ni /\
+    (4 < v -> nwk_key_fc r = nwk_key_fc ni /\
+              hashed_tclk r = Some (match hashed_tclk ni with Some h => h | None => rh end)) /\
+    (v = 4 -> hashed_tclk r = None) /\
+    (9 <= v -> children r = map (fun c => (fst c, Some (snd c))) (known_children ni)).
+Proof.
+  intros v ks pn pa ni rh Hv4 Hv14 Hadm. unfold written_after.
+  exact (roundtrip_from v ni rh (ncp_after_reset v ks pn pa) Hv4 Hv14 eq_refl eq_refl Hadm).
+Qed.
+
+(* on v4 the network frame counter cannot be stored: whatever the adapter held stays (no
+   admissibility needed: no operation of the v4 plan touches the counter) *)
+Lemma keys_by_address_nwk_fc : forall l st,
+  n_nwk_fc (fold_left apply_wop (map (fun k => WKeyByAddress (fst k) (snd k)) l) st) = n_nwk_fc st.
+Proof.
+  induction l as [|[p k] l IH]; intro st; cbn [map fold_left fst snd]; [reflexivity|].
+  rewrite IH. unfold apply_wop.
+  destruct (find_partner p (n_keys st)) as [i|]; [reflexivity|].
+  destruct (first_free (S (N.to_nat (n_key_size st))) 0 (n_keys st) (n_key_size st)); reflexivity.
+Qed.
+
+Lemma read_back_nwk_fc : forall v st r, read_back v st = Some r -> nwk_key_fc r = n_nwk_fc st.
+Proof.
+  intros v st r H. unfold read_back in H.
+  destruct (n_params st) as [p|]; [|discriminate H]. destruct (n_sec st) as [s|]; [|discriminate H].
+  injection H as H. subst r. reflexivity.
+Qed.
+
+Lemma stale_counter_v4 : forall key_size pn pa ni rh r,
+  read_back 4 (written_after 4 key_size pn pa ni rh) = Some r -> nwk_key_fc r = pn.
+Proof.
+  intros ks pn pa ni rh r H. rewrite (read_back_nwk_fc _ _ _ H).
+  unfold written_after. rewrite plan_split, !fold_left_app.
+  change (plan_ctr 4 ni) with (@nil wop). change (plan_children 4 ni) with (@nil wop).
+  change (plan_keys 4 ni) with (map (fun k => WKeyByAddress (fst k) (snd k)) (link_keys ni)).
+  cbn [fold_left]. unfold apply_wop at 1. cbn [n_nwk_fc].
+  rewrite keys_by_address_nwk_fc. reflexivity.
 Qed.
 
 Lemma tclk_refuted : exists v ni rh r, 4 < v /\ v <= 14 /\ tclk ni <> WELL_KNOWN_TCLK /\
